@@ -30,7 +30,7 @@ CLAIMED = {
    text='Proof on the type-checked program: (i) the domain checks of ci_wilson / ci_z_normal are compared with the documented regions on every cell of the arrangement of their integer guards (finite abstract domain, complete); (ii) on the accepted region the Ok bounds are shown equal, as rational functions with sqrt and quantile atoms, to the Wilson centre -/+ span (independently: both vanish in the score polynomial) resp. the Wald formula, with the kind table; (iii) every front-end (ci, Stats::ci, ci_true, ci_if, FromIterator, extend, extend_if, add_success/failure) is a counting fold with the predicate polarity in the step obligation, and the ratio form passes round(r*n); (iv) is_significant equals its documented thresholds on every zone cell.',
    note='floats as reals for the formula; bounds within [0,1] decided over the reals by sign certificates; domain guards additionally required to be computed exactly (E9) and integer operations on the accepted path to be overflow-free on the domain; n >= 1 (n = 0 under C11); level in (0,1)', ref='4/C02'),
  'C03': dict(tech='modular MIR summaries (callee contracts as stubs) + region-wise sign-certificate pruning + data-flow events',
-   text='Per region of the documented domain every feasible path of Stats::ci / Stats::index / ci_sorted_unchecked has the documented outcome (guards, Wilson request for round(q*n), rank = min(floor(p*n), n-1) with the cap present, kind table, errors propagated unchanged, no panic for q outside (0,1)); ci / ci_max_size hand on exactly sort_by(collect(copied(data)), ascending comparator) (comparator decided on the three orderings), so the result depends on the data only through its sorted arrangement; ci_indices is Stats::new(n).ci.',
+   text='Per region of the documented domain every feasible path of Stats::ci / Stats::index / ci_sorted_unchecked has the documented outcome (guards, Wilson request for round(q*n), rank = min(floor(p*n), n-1) with the cap present, kind table, errors propagated unchanged, no panic for q outside (0,1)); ci / ci_max_size hand on exactly sort_by(collect(copied(data)), ascending comparator) (comparator decided on the three orderings), so the result depends on the data only through its sorted arrangement; ci_indices is Stats::new(n).ci; the running Stats has the empty default and + / += add the populations.',
    note='contracts used as stubs: ci_wilson (C02), slice::sort_by; "ranks bracket round(q*n) within one position" decided by composition of the rank map with the sign certificate that the Wilson bounds contain k/n (z >= 0)', ref='4/C03'),
  'C04': dict(tech='loop base/step refinement (fold and lock-step), stream algebra for length mismatch, formula identity',
    text='Paired: append_pair / extend_tuple / extend feed exactly a - b once per pair (base/step obligations on the havocked loop state), the lock-step loop reports DifferentSampleSizes(len a, len b) through the counter/remaining-count algebra and appends nothing after a mismatch, ci_mean is the C01 formula of the differences. Unpaired: every feeder routes each sample into its own component; ci_mean equals (ma - mb) -/+ c*sqrt(va/na + vb/nb) with the documented effective dof as a rational-function identity; exchange symmetry by substitution.',
@@ -42,7 +42,7 @@ CLAIMED = {
    text='Necessary structural conditions only: every critical value reaching a bound of a mean / comparison / proportion interval is inverse_cdf of StudentsT(0,1,nu) with nu the term n-1 or the documented effective dof (Normal(0,1) above the constant threshold and for proportions) at q = (1+L)/2 | L, and it enters the bounds only as centre -/+ c*se (affine, opposite signs, no abs/clamp).',
    note='NOT decided: that statrs inverse_cdf inverts its CDF to the stated accuracy (numerical property of an external algorithm) - trusted contract', ref='4/C06'),
  'C08': dict(tech='first-order rounding-error algebra on the kernel summary + composition and who-may-construct rules',
-   text='Structural clauses: the += step is a compensated recurrence in the sense that, with every float operation annotated by an error symbol and the recovery subtractions exact, the accumulation\'s own rounding error cancels in the conserved quantity s -/+ c (Kahan and Neumaier satisfy it; naive, sign-flipped or dropped compensation do not); the merge is the same kernel applied to rhs.sum and rhs.compensation; value() is sum + k*compensation; registers are created only inside the register\'s own impls (no re-seeding).',
+   text='Structural clauses: the += step is a compensated recurrence in the sense that, with every float operation annotated by an error symbol and the recovery subtractions exact, the accumulation\'s own rounding error cancels in the conserved quantity s -/+ c (Kahan and Neumaier satisfy it; naive, sign-flipped or dropped compensation do not); the merge feeds the sum of the smaller register and (with the sign of the conserved quantity) its compensation through the same kernel into the larger one - conservation of s -/+ c over the reals with c live, and the magnitude guard that makes the error recovery of the kernel exact (Dekker), are both decided; value() is sum + k*compensation; registers are created only inside the register\'s own impls (no re-seeding).',
    note='NOT decided: the constant of the O(u*sum|x|) bound and long-stream behaviour (runtime quantities); Dekker/Kahan exactness lemma assumed', ref='4/C08'),
  'C09': dict(tech='monoid-homomorphism identities by normal form + type-level facts from trait selection',
    text='For all eight state types: the empty state is the neutral element, Add / add / AddAssign add every statistic component-wise from the same statistic of both operands (field coverage) without branching on the operands, every state type is Freeze + Send + Sync and every query takes &self, the one lazy static is a constant. With the fold obligations of C01/C02/C04/C05 any history delivering a multiset yields the batch statistics.',
